@@ -1,11 +1,13 @@
 SPECIFICATION Spec
 CONSTANTS
-  Origins <- OriginsSmall
+  SapNB = 8
+  Mode = "filter"
+  Origins <- OriginsOne
   NameIdx = {1, 2}
-  Cts = {2}
+  Cts = {0, 2}
   Ccis = {0, 1}
-  Ticks = {1, 1000}
-  MaxNow = 2001
+  Times <- TimesSmall
+  MaxNow = 2003
   MaxRc = 2
   Dev = {}
   Emit = FALSE
